@@ -40,6 +40,33 @@ theorem splitTrailing_snd_all (p : Char → Bool) (s : Str) : (splitTrailing p s
   rw [List.all_reverse]
   exact List.all_takeWhile
 
+theorem dropPrefix?_append (e r : Str) : dropPrefix? e (e ++ r) = some r := by
+  induction e with
+  | nil => rfl
+  | cons c cs ih => simp [dropPrefix?, ih]
+
+/-- the part kept by `splitTrailing` does not end with a character satisfying `p` -/
+theorem splitTrailing_fst_last (p : Char → Bool) (s : Str) (c : Char)
+    (h : (splitTrailing p s).1.getLast? = some c) : p c = false := by
+  have hrev : s.reverse.takeWhile p ++ s.reverse.dropWhile p = s.reverse := List.takeWhile_append_dropWhile
+  have hdw : ∀ x xs, s.reverse.dropWhile p = x :: xs → p x = false := by
+    intro x xs hd
+    have := List.head?_dropWhile_not p s.reverse
+    simpa [hd] using this
+  simp only [splitTrailing] at h
+  generalize s.reverse.takeWhile p = tw at *
+  generalize s.reverse.dropWhile p = dw at *
+  have h1 : s = dw.reverse ++ tw.reverse := by
+    have := congrArg List.reverse hrev
+    rw [List.reverse_append, List.reverse_reverse] at this
+    exact this.symm
+  subst h1
+  have hl : (dw.reverse ++ tw.reverse).length - tw.length = dw.reverse.length := by simp
+  rw [hl, List.take_left, List.getLast?_reverse] at h
+  cases dw with
+  | nil => simp at h
+  | cons x xs => simp at h; subst h; exact hdw x xs rfl
+
 theorem rstrip_eq (s : Str) : (rstrip s).1 ++ (rstrip s).2 = s := splitTrailing_eq _ s
 theorem splitLastNl_eq (s : Str) : (splitLastNl s).1 ++ (splitLastNl s).2 = s := splitTrailing_eq _ s
 
